@@ -128,7 +128,7 @@ def register(E, v, rng_guard):
         v("sparsity_coefficient", lambda d: call_hals(d, _V=True, sparsity_coefficient=0.1)),
         v("ridge_coefficient", lambda d: call_hals(d, _V=True, ridge_coefficient=0.1)),
         v("nonzero_rows", lambda d: call_hals(d, _V=True, nonzero_rows=True, sparsity_coefficient=50.0)),
-        v("exact", lambda d: call_hals(d, _V=True, exact=True), "t"),
+        v("exact", lambda d: call_hals(d, _V=True, exact=True), "x"),
         v("epsilon", lambda d: call_hals(d, _V=True, epsilon=1e-6), "t"),
     ])
 
@@ -158,6 +158,9 @@ def register(E, v, rng_guard):
         v("x=None", lambda d: call_as(d)), v("x-given", lambda d: call_as(d, _x=True)),
         v("all-negative-rhs", lambda d: call_as(d, _neg=True)),
         v("mixed-rhs", lambda d: (lambda g: {"x": NNLS.active_set_nnls(g[0][:, 0] * d.c([1, -1, 1]), g[1], n_iter_max=10)})(d.gram(3, 5))),
+        v("x-given,singular-gram(restart-branch)", lambda d: (lambda u: {"x": NNLS.active_set_nnls(
+            d.c(u.T @ d.pos((5,), 7)), d.c(u.T @ u), x=d.pos((3,), 4), n_iter_max=10)})(
+            (lambda m: np.stack([m[:, 0], m[:, 0], m[:, 1]], axis=1))(d.pos((5, 2), 1)))),
         v("x-given,mixed-rhs", lambda d: (lambda g: {"x": NNLS.active_set_nnls(g[0][:, 0] * d.c([1, -1, 1]), g[1], x=d.pos((3,), 4), n_iter_max=10)})(d.gram(3, 5))),
     ])
 
